@@ -149,6 +149,8 @@ def tmpl_qualified(rng, nodes, lits, deep=0, easy=False):
         v = new_shape(EX["QV%s_%d" % (u, k)] if rng.random() < 0.6 else BNode("qv%s_%d" % (u, k)), None)
         if not (easy and k == 0):
             v["comps"].append(gen_leaf(rng, False, nodes, lits))
+        # a value shape of waivable severity: its failures are nested and never waived, whatever the options say
+        v["sev"] = rng.choice([None, None, SH.Info, SH.Warning])
         pool.append(v)
     extra = []
     if deep:
@@ -170,6 +172,10 @@ def tmpl_qualified(rng, nodes, lits, deep=0, easy=False):
         qmax = rng.choice([None, 0, 1, 2])
         if qmin is None and qmax is None:
             qmin = 1
+        if rng.random() < 0.3:
+            # a narrow band: both bounds declared, the maximum reached as soon as the minimum is
+            qmin = rng.choice([1, 1, 2])
+            qmax = rng.choice([qmin, qmin, qmin - 1])
         if easy:
             ps["comps"].append(("qualified", [pool[k % 2]["id"]], qmin, qmax, True))
         else:
